@@ -37,6 +37,8 @@ def obs (s : Sparse.SState) (now : Nat) : String :=
 def bucketsInUse (s : Sparse.SState) : List Bytes :=
   ((s.active.map fun p => p.2.r.bucket) ++ (s.sealed.flatMap fun g => g.content.map fun p => p.2.r.bucket)).eraseDups
 
+/-- `named`: the buckets named so far by writes, and the bucket the current call names (a read of bucket
+`a`, never written, finds the records of bucket `ab`: their composite keys lie inside `a`'s ranges) -/
 def concatAmbiguous (s : Sparse.SState) (named : List Bytes) : Bool :=
   let bs := (bucketsInUse s ++ named).eraseDups
   bs.any fun a => bs.any fun b => a != b && hasPrefix b a
@@ -130,7 +132,7 @@ def step (st : St) (cmd : String) (impl : String) : St × Verdict :=
   let sealedAny := !s.sealed.isEmpty
   let sig : Option String :=
     if op == "range" || op == "getall" || op == "obs" then
-      (if concatAmbiguous s st.buckets then some "D-SPARSE-CONCAT"
+      (if concatAmbiguous s (B 1 :: st.buckets) then some "D-SPARSE-CONCAT"
        else if (op == "getall" || op == "obs") && metaIncomplete s then some "D-SPARSE-META"
        else if (op == "range" && rangeMiss s (B 1 ++ B 2) (B 1 ++ B 3)) || (op == "getall" && getAllMiss s (B 1)) ||
                (op == "obs" && DBSuite.obsBuckets.any (getAllMiss s)) then some "D-SPARSE-RANGE" else out.taint)
@@ -141,9 +143,9 @@ def step (st : St) (cmd : String) (impl : String) : St × Verdict :=
        let off := if op == "prefix" then I 3 else I 4
        let now := if op == "prefix" then N 5 else N 6
        let hasDead := s.active.any fun p => p.2.r.bucket == B 1 && hasPrefix p.2.r.key (B 2) && dead p.2.r now
-       if concatAmbiguous s st.buckets then some "D-SPARSE-CONCAT" else if sealedAny || lim > 0 then some "D-SPARSE-PAGE"
+       if concatAmbiguous s (B 1 :: st.buckets) then some "D-SPARSE-CONCAT" else if sealedAny || lim > 0 then some "D-SPARSE-PAGE"
        else if hasDead && off > 0 then some "D-SCAN-DEAD" else out.taint)
-    else if op == "get" then (if concatAmbiguous s st.buckets then some "D-SPARSE-CONCAT" else out.taint)
+    else if op == "get" then (if concatAmbiguous s (B 1 :: st.buckets) then some "D-SPARSE-CONCAT" else out.taint)
     else out.taint
   let taints := match out.taint with
     | some t => if out.st.taints.contains t || !out.sticky then out.st.taints else t :: out.st.taints
